@@ -21,7 +21,9 @@ Inductive pyval :=
 | VList (l : list pyval)
 | VTuple (l : list pyval)
 | VDict (kvs : list (string * pyval))  (* dict / lmfit.Parameters, insertion order *)
-| VParam (value vmax vmin vary expr : pyval) (name : string)
+| VParam (value vmax vmin vary expr : pyval) (name : string) (extra : pyval)
+    (* extra = (brute_step, stderr, correl, init_value, user_data): the rest of
+       Parameter.__getstate__ *)
 | VOther (tag : nat).                  (* object with no encoding rule *)
 
 (* induction principle that reaches into the nested lists *)
@@ -37,7 +39,7 @@ Section PyvalInd.
   Hypothesis HList : forall l, Forall P l -> P (VList l).
   Hypothesis HTuple : forall l, Forall P l -> P (VTuple l).
   Hypothesis HDict : forall kvs, Forall (fun kv => P (snd kv)) kvs -> P (VDict kvs).
-  Hypothesis HParam : forall a b c d e n, P a -> P b -> P c -> P d -> P e -> P (VParam a b c d e n).
+  Hypothesis HParam : forall a b c d e n x, P a -> P b -> P c -> P d -> P e -> P x -> P (VParam a b c d e n x).
   Hypothesis HOther : forall t, P (VOther t).
 
   Fixpoint pyval_ind' (v : pyval) : P v :=
@@ -64,8 +66,8 @@ Section PyvalInd.
                              | [] => Forall_nil _
                              | x :: t => Forall_cons _ (pyval_ind' (snd x)) (go t)
                              end) kvs)
-    | VParam a b c d e n => HParam a b c d e n (pyval_ind' a) (pyval_ind' b) (pyval_ind' c)
-                                   (pyval_ind' d) (pyval_ind' e)
+    | VParam a b c d e n x => HParam a b c d e n x (pyval_ind' a) (pyval_ind' b) (pyval_ind' c)
+                                   (pyval_ind' d) (pyval_ind' e) (pyval_ind' x)
     | VOther t => HOther t
     end.
 End PyvalInd.
@@ -118,9 +120,9 @@ Fixpoint py_eq (a b : pyval) {struct a} : bool :=
   | VList la, VList lb => eq_list la lb
   | VTuple la, VTuple lb => eq_list la lb
   | VDict da, VDict db => Nat.eqb (List.length da) (List.length db) && sub_dict da db
-  | VParam v1 _ _ _ _ _, _ =>            (* lmfit Parameter.__eq__ compares the value *)
+  | VParam v1 _ _ _ _ _ _, _ =>            (* lmfit Parameter.__eq__ compares the value *)
       match b with
-      | VParam v2 _ _ _ _ _ => py_eq v1 v2
+      | VParam v2 _ _ _ _ _ _ => py_eq v1 v2
       | _ => py_eq v1 b
       end
   | VOther t, VOther t' => Nat.eqb t t'
@@ -142,7 +144,7 @@ Definition truthy (v : pyval) : bool :=
   | VBytes _ => true
   | VList l | VTuple l => match l with [] => false | _ => true end
   | VDict d => match d with [] => false | _ => true end
-  | VParam _ _ _ _ _ _ => true
+  | VParam _ _ _ _ _ _ _ => true
   | VOther _ => true
   end.
 
@@ -157,3 +159,20 @@ Definition int_float_text (z : Z) : option string :=
 
 Definition xkind_text (k : xkind) : string :=
   match k with XNaN => "nan" | XPosInf => "inf" | XNegInf => "-inf" end.
+
+(* ---- hex presentation layer used only by the correspondence files -------- *)
+Definition hexdigit (c : ascii) : option N :=
+  let n := N_of_ascii c in
+  if (48 <=? n)%N && (n <=? 57)%N then Some (n - 48)%N
+  else if (97 <=? n)%N && (n <=? 102)%N then Some (n - 87)%N
+  else None.
+
+Fixpoint of_hex (s : string) : string :=
+  match s with
+  | String a (String b t) =>
+      match hexdigit a, hexdigit b with
+      | Some x, Some y => String (ascii_of_N (16 * x + y)) (of_hex t)
+      | _, _ => ""
+      end
+  | _ => ""
+  end.
